@@ -100,5 +100,90 @@ def selected(f, names, d):
 def du_wellformed(du):
     """ASSUMED shape of the abstract interface (DefineUseAnalysis.__init__ / _DefineUseInstance.__init__ build
     `uses` and `successors` with one entry per element of `defs`)"""
-    return forall_ints(lambda i: implies(0 <= i and i < seq_len(du.defs),
-                                         (seq_at(du.defs, i) in du.uses) and (seq_at(du.defs, i) in du.successors)))
+    n = seq_len(du.defs)
+    return (forall_ints(lambda i: implies(0 <= i and i < n, (seq_at(du.defs, i) in du.uses) and (seq_at(du.defs, i) in du.successors)))
+            # the keys of `uses` / `successors` are the definitions
+            and forall_keys('Definition', lambda k: (k in du.uses) == (k in du.successors))
+            # phi arguments are indices into defs (ReachingDefs)
+            and forall_keys('Definition', lambda k: implies(key_isa(k, 'PhiDef') and (k in du.uses),
+                                                            0 <= key_attr(k, 'lhs') and key_attr(k, 'lhs') < n
+                                                            and 0 <= key_attr(k, 'rhs') and key_attr(k, 'rhs') < n))
+            # a single-name assignment statement introduces exactly one definition
+            and forall_keys('Definition', lambda a: forall_keys('Definition', lambda b: implies(
+                (a in du.uses) and (b in du.uses) and key_isa(a, 'AssignDef') and key_isa(b, 'AssignDef')
+                and key_attr(a, 'site') == key_attr(b, 'site') and key_isa(key_attr(a, 'site'), 'Assign')
+                and key_isa(key_attr(key_attr(a, 'site'), 'target'), 'Id'), a == b))))
+
+
+# ------------------------------------------------------------------ O3: literal emission
+
+def num_is_negzero(v):
+    """the Float / float v is the signed zero -0"""
+    from spec.c05 import f64_sign, f64_c, f64_finite
+    if cls_name(v) == 'Float':
+        return v._real._s and v._real._c == 0 and not v._isinf and not v._isnan
+    return f64_finite(v) and f64_sign(v) and f64_c(v) == 0
+
+
+def has_literal(v):
+    """the (scalar) value v has an FPy literal form"""
+    from spec.floats import fl_is_nar
+    from spec.c05 import f64_finite
+    k = cls_name(v)
+    if k == 'Float':
+        return not fl_is_nar(v)
+    if k == 'float':
+        return f64_finite(v)
+    return k == 'bool' or k == 'int' or k == 'Fraction' or k == 'Context'
+
+
+def denotes(lit, v):
+    """the literal node `lit` denotes the scalar value v exactly (sign of zero included)"""
+    from spec.c05 import trip, t_val_q
+    from spec.c06 import is_lit, lit_ok, lit_value, lit_negzero
+    k = cls_name(v)
+    if k == 'bool':
+        return (lit.val == v) if cls_name(lit) == 'BoolVal' else False
+    if k == 'Float' or k == 'float':
+        return (lit_ok(lit) and lit_value(lit) == t_val_q(trip(v)) and lit_negzero(lit) == num_is_negzero(v)) if is_lit(lit) else False
+    if k == 'int' or k == 'Fraction':
+        return (lit_ok(lit) and lit_value(lit) == to_real(v) and not lit_negzero(lit)) if is_lit(lit) else False
+    if k == 'Context':
+        return same_obj(lit.val, v) if cls_name(lit) == 'ForeignVal' else False
+    return False
+
+
+# ------------------------------------------------------------------ O4: dead-code elimination
+
+def no_uses(du, d):
+    """definition d has no use site"""
+    return forall_keys('UseSite', lambda u: not set_map_has(du.uses, d, u))
+
+
+def pure_expr(e):
+    """the purity analysis calls expression e pure (ghost: Purity.analyze_expr; its table is Purity_* below)"""
+    return ghost_pred('pure_expr', e)
+
+
+def assign_rhs(d):
+    return key_attr(key_attr(d, 'site'), 'expr')
+
+
+def removable(f, d):
+    """THE SIDE CONDITION of removing the assignment that introduces d: nothing reads d and evaluating its
+    right-hand side has no effect"""
+    return no_uses(f.def_use, d) and pure_expr(assign_rhs(d))
+
+
+def marked(f, marks, d):
+    """d is a definition of f introduced by a single-name assignment statement that is marked for deletion"""
+    s = key_attr(d, 'site')
+    return (d in f.def_use.uses) and key_isa(d, 'AssignDef') and key_isa(s, 'Assign') and (s in marks)
+
+
+def marks_removable(f, marks):
+    return forall_keys('Definition', lambda d: implies(marked(f, marks, d), removable(f, d)))
+
+
+def phis_unused(f, phis):
+    return forall_keys('Definition', lambda k: implies(k in phis, key_isa(k, 'PhiDef') and (k in f.def_use.uses) and no_uses(f.def_use, k)))
